@@ -27,7 +27,7 @@ MC_En == {"Sum", "LinComb", "SBin", "SBinLit", "SNeg", "VBinLit", "VNeg", "Index
 MC_EnMax == MC_En \cup {"Maximize"}
 MC_Exprs == {"Sum", "LinComb", "SBin", "SBinLit", "SNeg", "VBinLit", "VNeg", "Index"}
 MC_ObjCands == {2, 10, 13, 14}      \* t, s + t, x.sum(), c @ x
-MC_ObjCandsQ == {10, 13}           \* quick tier: one scalar objective, one that brings every element of x into the problem
+MC_ObjCandsQ == {10, 14}           \* quick tier: one scalar objective, and c @ x (every element of x, distinct coefficients: not invariant under relabelling)
 MC_Stages == << MC_Exprs, {"CmpLit", "Cmp"}, {"Problem"} >>
 MC_StagesDeep == << MC_Exprs, MC_Exprs, {"CmpLit", "Cmp"}, {"Problem"} >>
 MC_FinalEn == {}
